@@ -142,7 +142,9 @@ static void check_new_slot(Run &r, void *p)
 
 static size_t gen_idx(Tape &t, size_t n, Run &r)
 {
-    uint8_t c = t.u8() % 14;
+    uint8_t cb = t.u8();
+    uint8_t c = cb % 14;
+    size_t near = (cb / 14) % (n + 3); // spare bits of the same byte: a small offset below / around the huge values
     size_t v;
     switch (c)
     {
@@ -154,9 +156,9 @@ static size_t gen_idx(Tape &t, size_t n, Run &r)
     case 8: v = n; break;
     case 9: v = n + 1; break;
     case 10: v = 2 * n + 1; break;
-    case 11: v = 0xFFFFFFFFull; break;
-    case 12: v = size_t(1) << 63; break;
-    default: v = SIZE_MAX; break;
+    case 11: v = 0xFFFFFFFFull + near; break;
+    case 12: v = (size_t(1) << 63) + near - 1; break;
+    default: v = SIZE_MAX - near; break; // as a signed number: -1, -2, ... -(n+3)
     }
     if (v >= (size_t(1) << 32)) { r.cx.label(L_BIGIDX); }
     return v;
